@@ -276,7 +276,7 @@ pub fn run(eng: &mut Engine) {
         "CrCallStub is specified as CallSource -> CallReturn (what both fixpoint modules consume); the module documentation of graph.rs still names the BlkEnd node of the call site".into(),
         "a Call/CallInd return target naming a block of another sub creates the (block, caller sub) pair even when the callee is empty or extern (closure under return-to targets)".into(),
     ];
-    let cases = eng.tier.pick(400_000u64, 12_000_000u64);
+    let cases = eng.tier.pick(1_500_000u64, 12_000_000u64);
     eng.random(
         "programs",
         RandomSpec { cases, max_tape: 256 },
